@@ -5,6 +5,7 @@
 //! exit: 0 property held on everything explored; 1 violation; 2 harness error.
 
 #![allow(dead_code, non_snake_case, unused_mut)]
+mod c16;
 mod c18;
 mod c19;
 mod core;
@@ -59,6 +60,22 @@ fn scenarios_for(prop: &str) -> Option<(Vec<Box<dyn Scenario>>, Report)> {
                     "num-bigint comparison",
                     "uniformity is a statistical judgement: chi-square, reject only below p = 1e-12 per test",
                     "no algorithm-level model of the sampler: value and consumption are never predicted, only compared fixed vs boxed",
+                ],
+            ),
+        )),
+        "C16" => Some((
+            vec![Box::new(c16::PersistSc), Box::new(c16::PrintSc)],
+            base(
+                "C16",
+                "exploration",
+                "persist: one run = (type, width, value class, serde format, delivery styles, 0-2 token/medium faults, optional serializer/deserializer error injection, optionally every truncation offset of the payload) executed as serialize -> medium -> deserialize against the real impls; print: one run = (type, width, value, fmt trait, # flag) formatted into an unlimited sink and then into a sink of every capacity 0..len. distinct_nontrivial = distinct abstract states (scenario, type, format, delivery styles, fault-kind combination, accept/reject) resp. (type, trait, flag, chunk count)",
+                &["serde format (SimSerializer/SimDeserializer: tokens Bytes/Str/U64/None/Some; is_human_readable, delivery style, error-at-call, type confusion, payload faults)", "storage medium faults on the payload", "text sink with a capacity (SimFmtSink)", "positional reference (byte i of the big-endian form = floor(x/256^(n-1-i)) mod 256)"],
+                &[
+                    "scoped claim: only conversions that go through the serde or fmt seams, plus Encoding::{to,from}_{le,be}_bytes and from_{le,be}_slice as the route feeding them; const hex parsers, BoxedUint byte/hex decoding and precision errors, From<primitive>, concat/split/resize are pure conversions and are NOT decided here",
+                    "to_words()/from_words() are the trusted bridge",
+                    "no byte order is assumed for the serde payload; strictness is stated as: a faulted record is rejected or re-serializes to itself",
+                    "bincode::deserialize ignores trailing bytes (framing): re-encoding must be a prefix of the record",
+                    "Display/Debug text gets no content oracle (pinned by the repo's own unit tests); they are run for totality and the prefix property",
                 ],
             ),
         )),
